@@ -1,5 +1,696 @@
 package render
 
-import "github.com/a-h/templ"
+import (
+	"context"
+	"fmt"
+	"io"
+	"net/http"
+	"net/http/httptest"
+	"regexp"
+	"sort"
+	"strings"
 
-func (e *Env) buildC12(n *Node) templ.Component { panic("todo") }
+	"github.com/a-h/templ"
+	templruntime "github.com/a-h/templ/runtime"
+	"github.com/a-h/templ/zzverif/kernel"
+	"github.com/a-h/templ/zzverif/shim/simsync"
+	"github.com/a-h/templ/zzverif/worlds/render/corpus"
+)
+
+// Item is one element of a class expression.
+type Item struct {
+	F   string `json:"f"`
+	C   int    `json:"c,omitempty"`
+	B   bool   `json:"b,omitempty"`
+	Sub []Item `json:"sub,omitempty"`
+}
+
+// c12u is the finite universe of a run.
+type c12u struct {
+	Scripts []templ.ComponentScript
+	Css     []templ.ComponentCSSClass
+	Reg     map[string]bool // css IDs registered with the middleware
+	OnceWith []bool         // handle i was created WithComponent
+}
+
+var scriptPool = func() []templ.ComponentScript {
+	return []templ.ComponentScript{corpus.ScriptA("p"), corpus.ScriptA("q<\"&"), corpus.ScriptB(1), corpus.ScriptB(2), corpus.ScriptC(), corpus.ScriptD("x", "y"),
+		templ.JSFuncCall("alertIt", "m", 3)}
+}
+var cssPool = func() []templ.ComponentCSSClass {
+	return []templ.ComponentCSSClass{corpus.CssA("red").(templ.ComponentCSSClass), corpus.CssA("blue").(templ.ComponentCSSClass), corpus.CssB().(templ.ComponentCSSClass),
+		corpus.CssC("10px").(templ.ComponentCSSClass), corpus.CssD().(templ.ComponentCSSClass)}
+}
+
+func (it Item) toAny(u *c12u) any {
+	css := func(i int) templ.ComponentCSSClass { return u.Css[i%len(u.Css)] }
+	switch it.F {
+	case "css":
+		return css(it.C)
+	case "kvcomp":
+		return templ.KV(css(it.C), it.B)
+	case "kviface":
+		return templ.KV(templ.CSSClass(css(it.C)), it.B)
+	case "classes":
+		var out templ.CSSClasses
+		for _, s := range it.Sub {
+			out = append(out, s.toAny(u))
+		}
+		return out
+	case "slice":
+		var out []templ.CSSClass
+		for _, s := range it.Sub {
+			if s.F == "css" {
+				out = append(out, css(s.C))
+			} else {
+				out = append(out, templ.ConstantCSSClass(fmt.Sprintf("k%d", s.C)))
+			}
+		}
+		return out
+	case "func":
+		c := css(it.C)
+		return func() templ.CSSClass { return c }
+	case "str":
+		return fmt.Sprintf("s%d", it.C)
+	case "map":
+		return map[string]bool{fmt.Sprintf("m%d", it.C): it.B}
+	case "const":
+		return templ.Class(fmt.Sprintf("k%d", it.C))
+	}
+	panic("item form " + it.F)
+}
+
+// enabled appends (css index, enabled) pairs in the order the item names classes. In a
+// class expression the last mention of a name decides whether it is present.
+func (it Item) enabled(u *c12u, out *[][2]int) {
+	b2i := func(b bool) int {
+		if b {
+			return 1
+		}
+		return 0
+	}
+	switch it.F {
+	case "css", "func":
+		*out = append(*out, [2]int{it.C % len(u.Css), 1})
+	case "kvcomp", "kviface":
+		*out = append(*out, [2]int{it.C % len(u.Css), b2i(it.B)})
+	case "classes":
+		for _, s := range it.Sub {
+			s.enabled(u, out)
+		}
+	case "slice":
+		for _, s := range it.Sub {
+			if s.F == "css" {
+				*out = append(*out, [2]int{s.C % len(u.Css), 1})
+			}
+		}
+	}
+}
+
+type useRec struct {
+	Kind    string
+	Scripts []int
+	Css     []int
+	Handle  int
+	Marker  string
+}
+
+// C12 extension of Node: M is a second index, Items the class expression.
+type nodeExt struct {
+	M     int
+	Items []Item
+}
+
+
+func (e *Env) counted(rec useRec, c templ.Component) templ.Component {
+	return templ.ComponentFunc(func(ctx context.Context, w io.Writer) error {
+		if !e.Static {
+			e.Uses = append(e.Uses, rec)
+		}
+		return c.Render(ctx, w)
+	})
+}
+
+func (e *Env) buildC12(n *Node) templ.Component {
+	u := e.C12
+	x := e.Ext[n]
+	if x == nil {
+		x = &nodeExt{}
+	}
+	sc := func(i int) templ.ComponentScript { return u.Scripts[i%len(u.Scripts)] }
+	si := func(i int) int { return i % len(u.Scripts) }
+	item := func(i int) Item {
+		if i < len(x.Items) {
+			return x.Items[i]
+		}
+		return Item{F: "str"}
+	}
+	en := func(items ...Item) []int {
+		var prs [][2]int
+		for _, it := range items {
+			it.enabled(u, &prs)
+		}
+		last := map[int]int{}
+		var order []int
+		for _, p := range prs {
+			if _, ok := last[p[0]]; !ok {
+				order = append(order, p[0])
+			}
+			last[p[0]] = p[1]
+		}
+		var out []int
+		for _, ci := range order {
+			if last[ci] == 1 {
+				out = append(out, ci)
+			}
+		}
+		return out
+	}
+	switch n.K {
+	case "usescript":
+		return e.counted(useRec{Kind: "usescript", Scripts: []int{si(n.N)}}, corpus.UseScript(sc(n.N)))
+	case "onclick":
+		return e.counted(useRec{Kind: "onclick", Scripts: []int{si(n.N)}}, corpus.OnClick(sc(n.N)))
+	case "ontwo":
+		return e.counted(useRec{Kind: "ontwo", Scripts: []int{si(n.N), si(x.M)}}, corpus.OnTwo(sc(n.N), sc(x.M)))
+	case "oncond":
+		used := si(n.N)
+		if !n.B {
+			used = si(x.M)
+		}
+		k := "oncond-t"
+		if !n.B {
+			k = "oncond-f"
+		}
+		return e.counted(useRec{Kind: k, Scripts: []int{used}}, corpus.OnCond(n.B, sc(n.N), sc(x.M)))
+	case "onhx":
+		return e.counted(useRec{Kind: "onhx", Scripts: []int{si(n.N)}}, corpus.OnHx(sc(n.N)))
+	case "classof":
+		var anys []any
+		for _, it := range x.Items {
+			anys = append(anys, it.toAny(u))
+		}
+		return e.counted(useRec{Kind: "classof", Css: en(x.Items...)}, corpus.ClassOf(anys))
+	case "classtwo":
+		return e.counted(useRec{Kind: "classtwo", Css: en(item(0), item(1))}, corpus.ClassTwo(item(0).toAny(u), item(1).toAny(u)))
+	case "classcond":
+		used := item(0)
+		if !n.B {
+			used = item(1)
+		}
+		return e.counted(useRec{Kind: "classcond", Css: en(used)}, corpus.ClassCond(n.B, item(0).toAny(u), item(1).toAny(u)))
+	}
+	panic("c12 kind " + n.K)
+}
+
+func genItem(t *kernel.Tape, depth int) Item {
+	// KeyValue[ComponentCSSClass,bool] is deliberately absent: the runtime has a rule path but no
+	// name path for it, so it is not a supported container form (DESIGN C12).
+	forms := []string{"css", "css", "kviface", "kviface", "classes", "slice", "func", "str", "map", "const"}
+	f := forms[t.Choose(len(forms), "form")]
+	if depth >= 2 && (f == "classes" || f == "slice") {
+		f = "css"
+	}
+	it := Item{F: f, C: t.Choose(8, "ci"), B: t.Chance(3, 4, "enabled")}
+	if f == "classes" || f == "slice" {
+		n := t.Range(0, 3, "nsub")
+		for i := 0; i < n; i++ {
+			if f == "slice" {
+				it.Sub = append(it.Sub, Item{F: []string{"css", "const"}[t.Choose(2, "sf")], C: t.Choose(8, "ci")})
+			} else {
+				it.Sub = append(it.Sub, genItem(t, depth+1))
+			}
+		}
+	}
+	return it
+}
+
+// genC12 draws a use tree.
+func genC12(t *kernel.Tape, ext map[*Node]*nodeExt, budget *int, depth int, nOnce int) *Node {
+	*budget--
+	uses := []string{"usescript", "onclick", "ontwo", "oncond", "onhx", "classof", "classtwo", "classcond", "oncemark", "oncewith", "lit", "text"}
+	inner := []string{"seq", "seq", "el", "ifelse", "callblock", "oncebody", "callnoblock", "join"}
+	if depth >= 4 || *budget <= 0 || t.Chance(3, 6, "leaf") {
+		k := uses[t.Choose(len(uses), "usekind")]
+		n := &Node{K: k, N: t.Choose(16, "n"), B: t.Bool("b")}
+		x := &nodeExt{M: t.Choose(16, "m")}
+		switch k {
+		case "classof":
+			c := t.Range(0, 4, "nitems")
+			for i := 0; i < c; i++ {
+				x.Items = append(x.Items, genItem(t, 0))
+			}
+		case "classtwo", "classcond":
+			x.Items = []Item{genItem(t, 1), genItem(t, 1)}
+		case "oncemark":
+			n.N = n.N % nOnce
+			n.S = fmt.Sprintf("h%d-%d", n.N, t.Choose(1000, "marker"))
+		case "text":
+			n.S = "plain"
+		}
+		ext[n] = x
+		return n
+	}
+	k := inner[t.Choose(len(inner), "innerkind")]
+	sub := func() *Node { return genC12(t, ext, budget, depth+1, nOnce) }
+	switch k {
+	case "seq", "join":
+		n := &Node{K: k}
+		c := t.Range(1, 5, "nkids")
+		for i := 0; i < c; i++ {
+			n.Kids = append(n.Kids, sub())
+		}
+		return n
+	case "el":
+		return &Node{K: "el", S: "e", Kids: []*Node{sub()}}
+	case "ifelse":
+		return &Node{K: "ifelse", B: t.Bool("cond"), Kids: []*Node{sub(), sub()}}
+	case "callblock":
+		callee := &Node{K: []string{"slot", "slottwice", "noslot"}[t.Choose(3, "callee")], S: "c"}
+		return &Node{K: "callblock", Kids: []*Node{callee, sub()}}
+	case "callnoblock":
+		return &Node{K: "callnoblock", Kids: []*Node{sub()}}
+	case "oncebody":
+		h := t.Choose(nOnce, "handle")
+		return &Node{K: "oncebody", N: h, Kids: []*Node{{K: "seq", Kids: []*Node{{K: "block", S: fmt.Sprintf("OB-h%d", h)}, sub()}}}}
+	}
+	return &Node{K: "lit"}
+}
+
+var (
+	reClassOf   = regexp.MustCompile(`<div\s+class="([^"]*)"\s*>k</div>`)
+	reClassTwo  = regexp.MustCompile(`<div\s+class="([^"]*)"\s*>k2</div>`)
+	reClassCond = regexp.MustCompile(`<div\s+class="([^"]*)"\s*>k3</div>`)
+	reOnClick   = regexp.MustCompile(`<button\s+onclick="([^"]*)"\s+type="button"\s*>b1</button>`)
+	reOnTwo     = regexp.MustCompile(`<button\s+onclick="([^"]*)"\s+onmouseover="([^"]*)"\s+type="button"\s*>b2</button>`)
+	reOnCondT   = regexp.MustCompile(`<input\s+type="button"\s+onclick="([^"]*)"\s*/?>`)
+	reOnCondF   = regexp.MustCompile(`<input\s+type="button"\s+onfocus="([^"]*)"\s*/?>`)
+	reOnHx      = regexp.MustCompile(`<button\s+hx-on::click="([^"]*)"\s+type="button"\s*>b3</button>`)
+	reOnceUse   = regexp.MustCompile(`<once-use>(h(\d+)-\d+)</once-use>`)
+	reOnceBody  = regexp.MustCompile(`<once-body>(h(\d+)-\d+)</once-body>`)
+)
+
+func allIndex(s, sub string) []int {
+	var out []int
+	if sub == "" {
+		return out
+	}
+	for i := 0; ; {
+		j := strings.Index(s[i:], sub)
+		if j < 0 {
+			return out
+		}
+		out = append(out, i+j)
+		i += j + len(sub)
+	}
+}
+
+// checkC12 applies the oracle to one context's complete document.
+func checkC12(rc *kernel.RunCtx, k *kernel.Kernel, who string, doc string, uses []useRec, u *c12u, nOnce int) {
+	fail := func(sig, format string, a ...any) {
+		rc.Fail(sig, "%s: %s\n document: %s", who, fmt.Sprintf(format, a...), kernel.Short(doc, 1200))
+	}
+	// 1. locate the markup of every use, in document order per kind
+	type located struct {
+		rec useRec
+		off int
+		val []string
+	}
+	var locs []located
+	byKind := map[string][]useRec{}
+	for _, r := range uses {
+		byKind[r.Kind] = append(byKind[r.Kind], r)
+	}
+	match := func(kind string, re *regexp.Regexp) bool {
+		ms := re.FindAllStringSubmatchIndex(doc, -1)
+		recs := byKind[kind]
+		if len(ms) != len(recs) {
+			fail("C12/use-markup-count:"+kind, "%d uses of kind %s were rendered but the document has %d such elements", len(recs), kind, len(ms))
+			return false
+		}
+		for i, m := range ms {
+			var vals []string
+			for g := 2; g+1 < len(m); g += 2 {
+				vals = append(vals, doc[m[g]:m[g+1]])
+			}
+			locs = append(locs, located{recs[i], m[0], vals})
+		}
+		return true
+	}
+	ok := match("classof", reClassOf) && match("classtwo", reClassTwo) && match("classcond", reClassCond) && match("onclick", reOnClick) &&
+		match("ontwo", reOnTwo) && match("oncond-t", reOnCondT) && match("oncond-f", reOnCondF) && match("onhx", reOnHx)
+	if !ok {
+		return
+	}
+	// script components: <script ...>CallInline</script>, matched in order
+	pos := 0
+	for _, r := range byKind["usescript"] {
+		s := u.Scripts[r.Scripts[0]]
+		needle := ">" + s.CallInline + "</script>"
+		j := strings.Index(doc[pos:], needle)
+		if j < 0 {
+			fail("C12/use-call-missing:usescript", "script component %s was rendered but its call %q is not in the document (after offset %d)", s.Name, s.CallInline, pos)
+			return
+		}
+		locs = append(locs, located{r, pos + j, nil})
+		pos += j + len(needle)
+	}
+	// 2. every use carries its call / class name
+	for _, l := range locs {
+		switch l.rec.Kind {
+		case "onclick", "onhx", "oncond-t", "oncond-f", "ontwo":
+			for i, si := range l.rec.Scripts {
+				if l.val[i] != u.Scripts[si].Call {
+					fail("C12/use-call-wrong:"+l.rec.Kind, "attribute holds %q, want the call %q", l.val[i], u.Scripts[si].Call)
+					return
+				}
+			}
+		case "classof", "classtwo", "classcond":
+			names := strings.Fields(l.val[0])
+			for _, ci := range l.rec.Css {
+				found := false
+				for _, nm := range names {
+					if nm == u.Css[ci].ID {
+						found = true
+					}
+				}
+				if !found {
+					fail("C12/use-class-name-missing:"+l.rec.Kind, "class attribute %q lacks %s", l.val[0], u.Css[ci].ID)
+					return
+				}
+			}
+		}
+	}
+	// 3. definitions: at most once, before first use
+	firstUseScript := map[string]int{}
+	firstUseCss := map[int]int{}
+	for _, l := range locs {
+		for _, si := range l.rec.Scripts {
+			nm := u.Scripts[si].Name
+			if o, ok := firstUseScript[nm]; !ok || l.off < o {
+				firstUseScript[nm] = l.off
+			}
+		}
+		for _, ci := range l.rec.Css {
+			if o, ok := firstUseCss[ci]; !ok || l.off < o {
+				firstUseCss[ci] = l.off
+			}
+		}
+	}
+	seenName := map[string]bool{}
+	for _, s := range u.Scripts {
+		if s.Function == "" || seenName[s.Name] {
+			continue
+		}
+		seenName[s.Name] = true
+		defs := allIndex(doc, s.Function)
+		if len(defs) > 1 {
+			fail("C12/script-defined-twice", "function of %s is defined %d times (offsets %v)", s.Name, len(defs), defs)
+			return
+		}
+		if fu, used := firstUseScript[s.Name]; used {
+			if len(defs) == 0 {
+				fail("C12/script-used-undefined", "%s is used at offset %d but its function is never defined in this context", s.Name, fu)
+				return
+			}
+			if defs[0] > fu {
+				fail("C12/script-defined-after-use", "%s is used at offset %d but defined at %d", s.Name, fu, defs[0])
+				return
+			}
+			k.Count("checked_script_items", 1)
+		}
+	}
+	for ci, c := range u.Css {
+		defs := allIndex(doc, string(c.Class))
+		if len(defs) > 1 {
+			fail("C12/css-defined-twice", "rule of %s is emitted %d times (offsets %v)", c.ID, len(defs), defs)
+			return
+		}
+		if u.Reg[c.ID] {
+			if len(defs) > 0 {
+				fail("C12/registered-css-inlined", "%s is registered with the middleware but its rule is inlined at %v", c.ID, defs)
+				return
+			}
+			continue
+		}
+		if fu, used := firstUseCss[ci]; used {
+			if len(defs) == 0 {
+				fail("C12/css-used-undefined", "class %s is used at offset %d but its rule is never emitted in this context", c.ID, fu)
+				return
+			}
+			if defs[0] > fu {
+				fail("C12/css-defined-after-use", "class %s is used at offset %d but its rule is at %d", c.ID, fu, defs[0])
+				return
+			}
+			k.Count("checked_css_items", 1)
+		}
+	}
+	// 4. once handles
+	for h := 0; h < nOnce; h++ {
+		var bodies []int
+		var firstBodyMarker string
+		for _, m := range reOnceBody.FindAllStringSubmatchIndex(doc, -1) {
+			if doc[m[4]:m[5]] == fmt.Sprint(h) {
+				if len(bodies) == 0 {
+					firstBodyMarker = doc[m[2]:m[3]]
+				}
+				bodies = append(bodies, m[0])
+			}
+		}
+		bodies = append(bodies, allIndex(doc, fmt.Sprintf("<blk>OB-h%d</blk>", h))...)
+		bodies = append(bodies, allIndex(doc, fmt.Sprintf("<blk>OW-h%d</blk>", h))...)
+		sort.Ints(bodies)
+		usesH, firstUse, firstMarker := 0, -1, ""
+		for _, m := range reOnceUse.FindAllStringSubmatchIndex(doc, -1) {
+			if doc[m[4]:m[5]] == fmt.Sprint(h) {
+				if firstUse < 0 {
+					firstUse, firstMarker = m[0], doc[m[2]:m[3]]
+				}
+			}
+		}
+		for _, r := range uses {
+			if (r.Kind == "oncemark" || r.Kind == "oncebody" || r.Kind == "oncewith") && r.Handle == h {
+				usesH++
+			}
+		}
+		if len(bodies) > 1 {
+			fail("C12/once-content-twice", "content of once handle %d was emitted %d times (offsets %v)", h, len(bodies), bodies)
+			return
+		}
+		if usesH > 0 && len(bodies) == 0 {
+			fail("C12/once-content-missing", "once handle %d was used %d times in this context but its content never appears", h, usesH)
+			return
+		}
+		if firstUse >= 0 && len(bodies) == 1 && firstBodyMarker != "" && (bodies[0] > firstUse || firstBodyMarker != firstMarker) {
+			if bodies[0] > firstUse {
+				fail("C12/once-content-after-use", "once handle %d: content at %d, first use at %d", h, bodies[0], firstUse)
+				return
+			}
+		}
+		if usesH > 0 {
+			k.Count("checked_once_items", 1)
+		}
+	}
+}
+
+type c12ctx struct {
+	name   string
+	specs  []*Node
+	fault  Fault
+	nonce  bool
+	env    *Env
+	w      *core
+	err    error
+	viaMW  bool
+	status int
+}
+
+func c12World(rc *kernel.RunCtx) {
+	t := rc.T
+	k := kernel.New(t, kernel.M1, 1<<30)
+	kernel.Active = k
+	kn := drawKnobs(t)
+	kn.OwnBuf = false
+	kn.install(t)
+	defer simsync.SetPoolPolicy(nil, 0)
+	templruntime.SetDevelopmentMode(false)
+	maxSteps := rc.Param("max_steps", 2000)
+
+	// universe
+	u := &c12u{Reg: map[string]bool{}}
+	sp, cp := scriptPool(), cssPool()
+	ns, nc := t.Range(2, len(sp), "nscripts"), t.Range(2, len(cp), "ncss")
+	rs, rcss := t.Choose(len(sp), "rot-s"), t.Choose(len(cp), "rot-c")
+	for i := 0; i < ns; i++ {
+		u.Scripts = append(u.Scripts, sp[(i+rs)%len(sp)])
+	}
+	for i := 0; i < nc; i++ {
+		u.Css = append(u.Css, cp[(i+rcss)%len(cp)])
+	}
+	nOnce := t.Range(1, 3, "nonce-handles")
+	uni := &Universe{}
+	for i := 0; i < nOnce; i++ {
+		with := t.Chance(1, 3, "once-with-component")
+		u.OnceWith = append(u.OnceWith, with)
+		if with {
+			uni.Onces = append(uni.Onces, templ.NewOnceHandle(templ.WithComponent(corpus.Block(fmt.Sprintf("OW-h%d", i)))))
+		} else {
+			uni.Onces = append(uni.Onces, templ.NewOnceHandle())
+		}
+	}
+	middleware := t.Chance(1, 4, "middleware")
+	var regClasses []templ.CSSClass
+	if middleware {
+		for _, c := range u.Css {
+			if t.Bool("register") {
+				u.Reg[c.ID] = true
+				regClasses = append(regClasses, c)
+			}
+		}
+	}
+	ext := map[*Node]*nodeExt{}
+	nctx := t.Range(1, rc.Param("max_contexts", 4), "ncontexts")
+	faultsLeft := t.Choose(2, "nfaults")
+	var ctxs []*c12ctx
+	for i := 0; i < nctx; i++ {
+		c := &c12ctx{name: fmt.Sprintf("ctx#%d", i), nonce: t.Chance(1, 3, "nonce"), viaMW: middleware}
+		nr := t.Range(1, 3, "renders-in-context")
+		if middleware {
+			nr = 1
+		}
+		for j := 0; j < nr; j++ {
+			b := t.Range(1, rc.Param("max_nodes", 30), "budget")
+			c.specs = append(c.specs, &Node{K: "seq", Kids: []*Node{genC12(t, ext, &b, 0, nOnce)}})
+		}
+		if faultsLeft > 0 && !middleware && t.Chance(1, 3, "faulty-context") {
+			faultsLeft--
+			c.fault = Fault{Kind: []string{"short", "zero"}[t.Choose(2, "fk")], At: t.Choose(400, "fat")}
+		}
+		ctxs = append(ctxs, c)
+	}
+	fixOnce := func(e *Env) {
+		e.C12, e.Ext = u, ext
+	}
+	// start the contexts as tasks
+	for _, c := range ctxs {
+		c := c
+		c.env = newEnv(uni)
+		fixOnce(c.env)
+		park := func(kind string, n int) { k.Park(c.name, kind, fmt.Sprint(n), nil) }
+		c.env.Hook = func(kind, key string) { k.Park(c.name, kind, key, nil) }
+		c.w = &core{fault: c.fault, sticky: true, park: park}
+		k.Go(func() {
+			k.Park(c.name, "start", "", nil)
+			if c.viaMW {
+				comp := c.env.buildTracked(c.specs[0])
+				rec := newRecorder()
+				mw := templ.NewCSSMiddleware(templ.Handler(comp), regClasses...)
+				mw.ServeHTTP(parkRecorder{rec, park}, httptest.NewRequest(http.MethodGet, "/page", nil))
+				c.w.got, c.status = rec.body.Bytes(), rec.status
+				return
+			}
+			ctx := templ.InitializeContext(context.Background())
+			if c.nonce {
+				ctx = templ.WithNonce(ctx, "n0nce")
+			}
+			for _, s := range c.specs {
+				if err := c.env.buildTracked(s).Render(ctx, c.w.as(kn.WKind)); err != nil {
+					c.err = err
+					return
+				}
+			}
+		})
+	}
+	for {
+		k.Quiesce()
+		ps := k.ParkedList()
+		if len(ps) == 0 {
+			break
+		}
+		i := 0
+		if k.Steps < maxSteps {
+			i = t.Choose(len(ps), "sched")
+		}
+		k.Run(ps[i], kernel.Decision{})
+	}
+	totalUses := 0
+	for _, c := range ctxs {
+		who := fmt.Sprintf("%s (specs %v, nonce=%v, middleware=%v registered=%v, %d contexts interleaved)", c.name, c.specs, c.nonce, c.viaMW, keys(u.Reg), nctx)
+		if c.w.fired {
+			k.Count("fault_context_writer_failed", 1)
+			if c.err == nil {
+				rc.Fail("C12/fault-swallowed", "%s: writer failed but Render returned nil", who)
+			}
+			continue // a faulted context is only held to C10's prefix rule, checked there
+		}
+		if c.err != nil {
+			rc.Fail("C12/render-error", "%s: %v", who, c.err)
+			continue
+		}
+		if c.viaMW && c.status != http.StatusOK {
+			rc.Fail("C12/middleware-page-failed", "%s: status %d", who, c.status)
+			continue
+		}
+		totalUses += len(c.env.Uses)
+		checkC12(rc, k, who, string(c.w.got), c.env.Uses, u, nOnce)
+	}
+	if middleware && !rc.Failed() {
+		rec := httptest.NewRecorder()
+		templ.NewCSSMiddleware(http.NotFoundHandler(), regClasses...).ServeHTTP(rec, httptest.NewRequest(http.MethodGet, "/styles/templ.css", nil))
+		sheet := rec.Body.String()
+		for _, c := range u.Css {
+			n := len(allIndex(sheet, string(c.Class)))
+			if u.Reg[c.ID] && n != 1 {
+				rc.Fail("C12/stylesheet-rule-count", "registered class %s appears %d times in the stylesheet %q", c.ID, n, kernel.Short(sheet, 400))
+			}
+			if !u.Reg[c.ID] && n != 0 {
+				rc.Fail("C12/stylesheet-unregistered-rule", "class %s is not registered but is in the stylesheet", c.ID)
+			}
+		}
+		k.Count("probe_middleware_run", 1)
+	}
+	k.Count("uses_checked", int64(totalUses))
+	rc.Finish(k)
+	rc.Res.Nontriv = totalUses >= 2
+	rc.Res.Key = rc.Res.LogHash
+	if rc.WantSample || rc.Failed() {
+		var cs []map[string]any
+		for _, c := range ctxs {
+			var sp []string
+			for _, s := range c.specs {
+				sp = append(sp, describeC12(s, ext))
+			}
+			cs = append(cs, map[string]any{"context": c.name, "renders": sp, "uses_rendered": len(c.env.Uses), "nonce": c.nonce, "fault": fmt.Sprint(c.fault), "doc_bytes": len(c.w.got)})
+		}
+		rc.Res.Sample = map[string]any{"contexts": cs, "scripts": len(u.Scripts), "css": len(u.Css), "once_handles": nOnce, "middleware": middleware, "registered": keys(u.Reg), "steps": k.Steps, "switches": k.Switches}
+	}
+}
+
+func keys(m map[string]bool) []string {
+	var out []string
+	for k := range m {
+		out = append(out, k)
+	}
+	sort.Strings(out)
+	return out
+}
+
+func describeC12(n *Node, ext map[*Node]*nodeExt) string {
+	s := n.K
+	if x := ext[n]; x != nil && (len(x.Items) > 0 || n.K == "ontwo" || n.K == "oncond") {
+		s += fmt.Sprintf("{n=%d m=%d b=%v items=%v}", n.N, x.M, n.B, x.Items)
+	} else if n.S != "" || n.N != 0 {
+		s += fmt.Sprintf("[%s,%d,%v]", n.S, n.N, n.B)
+	}
+	if len(n.Kids) > 0 {
+		var ks []string
+		for _, k := range n.Kids {
+			ks = append(ks, describeC12(k, ext))
+		}
+		s += "(" + strings.Join(ks, " ") + ")"
+	}
+	return s
+}
+
+// buildTracked builds a spec and wraps once-related nodes so that their use is logged.
+func (e *Env) buildTracked(n *Node) templ.Component { return e.Build(n) }
